@@ -1558,7 +1558,7 @@ def _shard(args) -> Result:
     return res
 
 
-BUDGET = {"quick": {"C14": 288, "C15": 224, "C16": 256}, "thorough": {"C14": 4000, "C15": 3200, "C16": 4000}}
+BUDGET = {"quick": {"C14": 288, "C15": 176, "C16": 256}, "thorough": {"C14": 4000, "C15": 2400, "C16": 3200}}
 
 
 def run(prop: str, tier: str, seed: int, intensify: bool = False) -> Result:
